@@ -52,31 +52,37 @@ Proof.
   - eapply lin_io; eassumption.
 Qed.
 
-Lemma g_committed (c0 : cfg val arg) ls c t o log :
-  initial c0 -> exec wfun sk wp c0 ls c -> In (LEnd t o log) ls ->
-  exists H H1 H2 s s1 s2,
-    seq_hist wfun sk (abs_of c0) H s /\ H = H1 ++ (t, o, log) :: H2 /\
-    seq_hist wfun sk (abs_of c0) H1 s1 /\ seq_run wfun sk o s1 = Some (s2, log).
-Proof. apply (completed_ops_atomic val arg wfun sk wp K WF). Qed.
-
-Lemma g_no_lost_update (c0 : cfg val arg) ls c :
-  initial c0 -> exec wfun sk wp c0 ls c -> (forall t, c_thr c t = None) ->
-  exists H σ,
-    seq_hist wfun sk (abs_of c0) H σ /\
-    (forall t o log, In (LEnd t o log) ls -> In (t, o, log) H) /\
-    (forall v, c_val c v = s_val σ v) /\ (forall p, c_heap c (c_ptr c p) = s_pub σ p).
+(** the sequential history of an annotated execution consists of the execution's own operations *)
+Lemma g_history_is_execution (c0 : cfg val arg) ls c σ pl tr :
+  initial c0 -> lin wfun sk wp c0 ls c σ pl tr ->
+  (forall t o log, In (t, o, log) (lins tr) -> In (LBegin t o) ls) /\
+  (forall t, exists extra,
+     thread_hist t (lins tr) = thread_returns t ls ++ extra /\ length extra <= 1 /\
+     (c_thr c t = None -> extra = [])).
 Proof.
-  intros Hi He Hq. destruct (lin_total val arg wfun sk wp K WF c0 ls c Hi He) as (σ & pl & tr & L).
-  destruct (lin_wb val arg wfun sk wp K WF _ _ _ _ _ _ Hi L) as (ph & Hwb & _).
+  intros Hi L. split.
+  - apply (lins_invoked val arg wfun sk wp c0 ls c σ pl tr Hi L).
+  - intro t. apply (lin_thread_order val arg wfun sk wp K WF c0 ls c σ pl tr t Hi L).
+Qed.
+
+Lemma g_committed (c0 : cfg val arg) ls c σ pl tr t o log :
+  initial c0 -> lin wfun sk wp c0 ls c σ pl tr -> In (LEnd t o log) ls ->
+  exists H1 H2 s1 s2,
+    lins tr = H1 ++ (t, o, log) :: H2 /\
+    seq_hist wfun sk (abs_of c0) H1 s1 /\ seq_run wfun sk o s1 = Some (s2, log).
+Proof. apply (completed_ops_atomic_lin val arg wfun sk wp K WF). Qed.
+
+Lemma g_no_lost_update (c0 : cfg val arg) ls c σ pl tr :
+  initial c0 -> lin wfun sk wp c0 ls c σ pl tr -> (forall t, c_thr c t = None) ->
+  seq_hist wfun sk (abs_of c0) (lins tr) σ /\
+  (forall t, thread_hist t (lins tr) = thread_returns t ls) /\
+  (forall v, c_val c v = s_val σ v) /\ (forall p, c_heap c (c_ptr c p) = s_pub σ p).
+Proof.
+  intros Hi L Hq.
   destruct (lin_quiescent val arg wfun sk wp K WF _ _ _ _ _ _ Hi L Hq) as [Hv Hp].
-  exists (lins tr), σ. repeat split; auto.
-  - eapply lin_hist; eassumption.
-  - intros t o log Hin.
-    assert (X : In (MRes t o log) (io_labels ls)).
-    { unfold io_labels. apply in_flat_map. exists (LEnd t o log). split; [assumption|left; reflexivity]. }
-    rewrite <- (lin_io _ _ _ _ _ _ _ _ _ _ _ L) in X. unfold io_marks in X. apply filter_In in X as [X _].
-    pose proof (wb_res_lin val arg _ _ _ Hwb [] (fun t0 o0 log0 (E : PIdle = PLin o0 log0) => match E with end) t o log X) as Y.
-    exact Y.
+  split; [eapply lin_hist; eassumption|]. split; [|split; assumption].
+  intro t. destruct (lin_thread_order val arg wfun sk wp K WF c0 ls c σ pl tr t Hi L) as (extra & E & _ & Hx).
+  rewrite E, (Hx (Hq t)), app_nil_r. reflexivity.
 Qed.
 
 Lemma g_seq_total (o : op arg) path (s : sstate val) :
@@ -89,12 +95,11 @@ Section General3.
 Variables (val arg : Type) (wfun : op arg -> nat -> list val -> val) (sk : skel) (wp : bool) (K : lock).
 Hypothesis WF : wf_skel K sk = true.
 
-Lemma g_real_time (c0 c : cfg val arg) la t1 o1 log1 lb t2 o2 ld log2 le :
+Lemma g_real_time (c0 c : cfg val arg) σ pl tr la t1 o1 log1 lb t2 o2 ld log2 le :
   initial c0 ->
-  exec wfun sk wp c0 (la ++ LEnd t1 o1 log1 :: lb ++ LBegin t2 o2 :: ld ++ LEnd t2 o2 log2 :: le) c ->
+  lin wfun sk wp c0 (la ++ LEnd t1 o1 log1 :: lb ++ LBegin t2 o2 :: ld ++ LEnd t2 o2 log2 :: le) c σ pl tr ->
   Forall (other_thread t2) ld ->
-  exists H Ha Hm Hb s,
-    seq_hist wfun sk (abs_of c0) H s /\ H = Ha ++ (t1, o1, log1) :: Hm ++ (t2, o2, log2) :: Hb.
-Proof. apply (real_time_order val arg wfun sk wp K WF). Qed.
+  exists Ha Hm Hb, lins tr = Ha ++ (t1, o1, log1) :: Hm ++ (t2, o2, log2) :: Hb.
+Proof. apply (real_time_order_lin val arg wfun sk wp K WF). Qed.
 
 End General3.
